@@ -504,7 +504,15 @@ static PyObject* getrs(PyObject *self, PyObject *args, PyObject *kwrds)
 #if (SIZEOF_INT < SIZEOF_SIZE_T)
     int *ipiv_ptr = malloc(n*sizeof(int));
     if (!ipiv_ptr) return PyErr_NoMemory();
-    int i;  for (i=0; i<n; i++) ipiv_ptr[i] = MAT_BUFI(ipiv)[i];
+    int i;  for (i=0; i<n; i++) {
+        /* LAPACK interchanges rows ipiv[i] without looking: refuse pivots
+           that are not row numbers */
+        if (MAT_BUFI(ipiv)[i] < 1 || MAT_BUFI(ipiv)[i] > n) {
+            free(ipiv_ptr);
+            PY_ERR(PyExc_ValueError, "ipiv is not a valid pivot vector");
+        }
+        ipiv_ptr[i] = MAT_BUFI(ipiv)[i];
+    }
 #else
     int *ipiv_ptr = MAT_BUFI(ipiv);
 #endif
@@ -586,7 +594,15 @@ static PyObject* getri(PyObject *self, PyObject *args, PyObject *kwrds)
 #if (SIZEOF_INT < SIZEOF_SIZE_T)
     int *ipiv_ptr = malloc(n*sizeof(int));
     if (!ipiv_ptr) return PyErr_NoMemory();
-    int i;  for (i=0; i<n; i++) ipiv_ptr[i] = MAT_BUFI(ipiv)[i];
+    int i;  for (i=0; i<n; i++) {
+        /* LAPACK interchanges rows ipiv[i] without looking: refuse pivots
+           that are not row numbers */
+        if (MAT_BUFI(ipiv)[i] < 1 || MAT_BUFI(ipiv)[i] > n) {
+            free(ipiv_ptr);
+            PY_ERR(PyExc_ValueError, "ipiv is not a valid pivot vector");
+        }
+        ipiv_ptr[i] = MAT_BUFI(ipiv)[i];
+    }
 #else
     int *ipiv_ptr = MAT_BUFI(ipiv);
 #endif
@@ -953,7 +969,15 @@ static PyObject* gbtrs(PyObject *self, PyObject *args, PyObject *kwrds)
 #if (SIZEOF_INT < SIZEOF_SIZE_T)
     int *ipiv_ptr = malloc(n*sizeof(int));
     if (!ipiv_ptr) return PyErr_NoMemory();
-    int i;  for (i=0; i<n; i++) ipiv_ptr[i] = MAT_BUFI(ipiv)[i];
+    int i;  for (i=0; i<n; i++) {
+        /* LAPACK interchanges rows ipiv[i] without looking: refuse pivots
+           that are not row numbers */
+        if (MAT_BUFI(ipiv)[i] < 1 || MAT_BUFI(ipiv)[i] > n) {
+            free(ipiv_ptr);
+            PY_ERR(PyExc_ValueError, "ipiv is not a valid pivot vector");
+        }
+        ipiv_ptr[i] = MAT_BUFI(ipiv)[i];
+    }
 #else
     int *ipiv_ptr = MAT_BUFI(ipiv);
 #endif
@@ -1325,7 +1349,15 @@ static PyObject* gttrs(PyObject *self, PyObject *args, PyObject *kwrds)
 #if (SIZEOF_INT < SIZEOF_SIZE_T)
     int *ipiv_ptr = malloc(n*sizeof(int));
     if (!ipiv_ptr) return PyErr_NoMemory();
-    int i;  for (i=0; i<n; i++) ipiv_ptr[i] = MAT_BUFI(ipiv)[i];
+    int i;  for (i=0; i<n; i++) {
+        /* LAPACK interchanges rows ipiv[i] without looking: refuse pivots
+           that are not row numbers */
+        if (MAT_BUFI(ipiv)[i] < 1 || MAT_BUFI(ipiv)[i] > n) {
+            free(ipiv_ptr);
+            PY_ERR(PyExc_ValueError, "ipiv is not a valid pivot vector");
+        }
+        ipiv_ptr[i] = MAT_BUFI(ipiv)[i];
+    }
 #else
     int *ipiv_ptr = MAT_BUFI(ipiv);
 #endif
@@ -2575,7 +2607,15 @@ static PyObject* sytrs(PyObject *self, PyObject *args, PyObject *kwrds)
 #if (SIZEOF_INT < SIZEOF_SIZE_T)
     int *ipiv_ptr = malloc(n*sizeof(int));
     if (!ipiv_ptr) return PyErr_NoMemory();
-    int i;  for (i=0; i<n; i++) ipiv_ptr[i] = MAT_BUFI(ipiv)[i];
+    int i;  for (i=0; i<n; i++) {
+        /* LAPACK interchanges rows ipiv[i] without looking: refuse pivots
+           that are not row numbers */
+        if (MAT_BUFI(ipiv)[i] == 0 || MAT_BUFI(ipiv)[i] > n || MAT_BUFI(ipiv)[i] < -n) {
+            free(ipiv_ptr);
+            PY_ERR(PyExc_ValueError, "ipiv is not a valid pivot vector");
+        }
+        ipiv_ptr[i] = MAT_BUFI(ipiv)[i];
+    }
 #else
     int *ipiv_ptr = MAT_BUFI(ipiv);
 #endif
@@ -2687,7 +2727,15 @@ static PyObject* hetrs(PyObject *self, PyObject *args, PyObject *kwrds)
 #if (SIZEOF_INT < SIZEOF_SIZE_T)
     int *ipiv_ptr = malloc(n*sizeof(int));
     if (!ipiv_ptr) return PyErr_NoMemory();
-    int i;  for (i=0; i<n; i++) ipiv_ptr[i] = MAT_BUFI(ipiv)[i];
+    int i;  for (i=0; i<n; i++) {
+        /* LAPACK interchanges rows ipiv[i] without looking: refuse pivots
+           that are not row numbers */
+        if (MAT_BUFI(ipiv)[i] == 0 || MAT_BUFI(ipiv)[i] > n || MAT_BUFI(ipiv)[i] < -n) {
+            free(ipiv_ptr);
+            PY_ERR(PyExc_ValueError, "ipiv is not a valid pivot vector");
+        }
+        ipiv_ptr[i] = MAT_BUFI(ipiv)[i];
+    }
 #else
     int *ipiv_ptr = MAT_BUFI(ipiv);
 #endif
@@ -2783,7 +2831,15 @@ static PyObject* sytri(PyObject *self, PyObject *args, PyObject *kwrds)
 #if (SIZEOF_INT < SIZEOF_SIZE_T)
     int *ipiv_ptr = malloc(n*sizeof(int));
     if (!ipiv_ptr) return PyErr_NoMemory();
-    int i;  for (i=0; i<n; i++) ipiv_ptr[i] = MAT_BUFI(ipiv)[i];
+    int i;  for (i=0; i<n; i++) {
+        /* LAPACK interchanges rows ipiv[i] without looking: refuse pivots
+           that are not row numbers */
+        if (MAT_BUFI(ipiv)[i] == 0 || MAT_BUFI(ipiv)[i] > n || MAT_BUFI(ipiv)[i] < -n) {
+            free(ipiv_ptr);
+            PY_ERR(PyExc_ValueError, "ipiv is not a valid pivot vector");
+        }
+        ipiv_ptr[i] = MAT_BUFI(ipiv)[i];
+    }
 #else
     int *ipiv_ptr = MAT_BUFI(ipiv);
 #endif
@@ -2893,7 +2949,15 @@ static PyObject* hetri(PyObject *self, PyObject *args, PyObject *kwrds)
 #if (SIZEOF_INT < SIZEOF_SIZE_T)
     int *ipiv_ptr = malloc(n*sizeof(int));
     if (!ipiv_ptr) return PyErr_NoMemory();
-    int i;  for (i=0; i<n; i++) ipiv_ptr[i] = MAT_BUFI(ipiv)[i];
+    int i;  for (i=0; i<n; i++) {
+        /* LAPACK interchanges rows ipiv[i] without looking: refuse pivots
+           that are not row numbers */
+        if (MAT_BUFI(ipiv)[i] == 0 || MAT_BUFI(ipiv)[i] > n || MAT_BUFI(ipiv)[i] < -n) {
+            free(ipiv_ptr);
+            PY_ERR(PyExc_ValueError, "ipiv is not a valid pivot vector");
+        }
+        ipiv_ptr[i] = MAT_BUFI(ipiv)[i];
+    }
 #else
     int *ipiv_ptr = MAT_BUFI(ipiv);
 #endif
